@@ -256,7 +256,7 @@ def diamond(cx, cy, r):
 
 def constructed(rng):
     """returns (label, intended, geom): intended is 'valid' or the rule meant to be broken"""
-    k = rng.randint(0, 21)
+    k = rng.randint(0, 24)
     r = rng.choice([2, 3, 4])
     if k == 0:      # two holes touching the shell at the same vertex
         N = 12 * r
@@ -360,6 +360,25 @@ def constructed(rng):
         if c == 1: return ('lr_bowtie', 'RRingSelfIntersection', ('LR', [(0, 0), (10, 10), (10, 0), (0, 10), (0, 0)]))
         if c == 2: return ('lr_self_touch', 'RRingSelfIntersection', ('LR', [(0, 0), (4, 0), (4, 4), (8, 4), (8, 8), (4, 8), (4, 4), (0, 4), (0, 0)]))
         return ('lr_unclosed', 'RRingNotClosed', ('LR', [(0, 0), (5, 0), (5, 5), (0, 5)]))
+    if k == 22:     # elements whose shells cross through vertices only (no proper crossing, no shell vertex strictly inside the other)
+        A = [[(0, -2), (2, 0), (0, 2), (-2, 0), (0, -2)]]
+        c = rng.randint(0, 2)
+        if c == 0: return ('elements_cross_at_vertices', 'RSelfIntersection', ('MPG', [A, [square(-3, 0, 3, 1)]]))
+        if c == 1: return ('elements_cross_at_vertices', 'RSelfIntersection', ('MPG', [A, [[(-3, 0), (3, 0), (0, 5), (-3, 0)]]]))
+        return ('elements_touch_at_vertices', 'valid', ('MPG', [A, [[(2, 0), (5, -2), (5, 2), (2, 0)]], [[(-2, 0), (-5, 2), (-5, -2), (-2, 0)]]]))
+    if k == 23:     # a ring crossing itself exactly at a vertex; and touching itself there without crossing
+        if rng.random() < 0.5:
+            return ('ring_crosses_itself_at_vertex', 'RRingSelfIntersection', ('PG', [[(0, 0), (2, 2), (4, 4), (4, 0), (2, 2), (0, 4), (0, 0)]]))
+        return ('ring_touches_itself_at_vertex', 'RRingSelfIntersection', ('PG', [[(0, 0), (2, 2), (0, 4), (4, 4), (2, 2), (4, 0), (0, 0)]]))
+    if k == 24:     # closed lines and end points (mod-2 rule: a closed line has no boundary)
+        tri = [(0, 0), (6, 0), (3, 5), (0, 0)]
+        c = rng.randint(0, 5)
+        if c == 0: return ('line_ends_at_closed_line_start_outside', 'valid', ('MLS', [tri, [(0, 0), (-4, -2)]]))
+        if c == 1: return ('line_ends_at_closed_line_start_inside', 'valid', ('MLS', [tri, [(3, 2), (0, 0)]]))
+        if c == 2: return ('line_ends_at_closed_line_vertex', 'valid', ('MLS', [[(9, 1), (6, 0)], tri]))
+        if c == 3: return ('closed_lines_share_start', 'valid', ('MLS', [tri, [(0, 0), (-6, 0), (-3, -5), (0, 0)]]))
+        if c == 4: return ('open_lines_share_ends_both', 'valid', ('MLS', [[(0, 0), (6, 0), (3, 5)], [(3, 5), (0, 0)]]))
+        return ('closed_line_and_far_line', 'valid', ('MLS', [tri, [(10, 10), (12, 12)]]))
     # shell self-touch at a vertex on an edge (vertex moved onto a non-adjacent edge)
     return ('vertex_on_own_edge', 'RRingSelfIntersection', ('PG', [[(0, 0), (12, 0), (12, 12), (6, 0 if rng.random() < 0.5 else 12), (0, 12), (0, 0)]]))
 
@@ -617,11 +636,18 @@ def shrink(runner, g, e, kinds, budget=120):
 
 # ------------------------------------------------------------------ known findings (matched by a specific key)
 def known_key(kind, g, m, im):
-    """F-C05-1: with the self-touching-ring flag, a ring that touches itself and also touches another ring of the same polygon
-    at a different point is reported as 'Interior is disconnected' although the rules hold"""
+    """C05-F1 (fixed): with the self-touching-ring flag, a ring that touches itself and also touches another ring of the same polygon
+    at a different point was reported as 'Interior is disconnected' although the rules hold.
+    C05-F2: after a double touch the intersection scan stops; a later test then names a rule that is not broken
+    (hole outside shell / nested holes) for a hole whose edge overlaps another ring."""
     if kind == 'verdict1' and m['valid'][1] and not m['valid'][0] and 6 in m['sets'][0] \
             and im['D'][1]['msg'] == 'Interior is disconnected' and g[0] in ('PG', 'MPG', 'GC'):
         return 'selftouch-ring-plus-touching-ring'
+    if kind in ('rule0', 'rule1'):
+        flag = int(kind[-1])
+        code = MSG_CODE.get(im['D'][flag]['msg'])
+        if code in (2, 3) and 4 in m['sets'][flag] and 5 in m['sets'][flag] and code not in m['sets'][flag]:
+            return 'rule-misreported-after-double-touch'
     return None
 
 
@@ -821,6 +847,8 @@ def run(ctx):
     if not ok_build or not ctx.cxx(os.path.join(ROOT, 'harness/c05.cpp'), hexe, 'rel') or not drv:
         return
     runner = Runner(ctx, drv, hexe)
+    if ctx.replay:
+        return replay(ctx, runner)
     cases = []
     corpus = os.path.join(ROOT, 'gen/corpus/C05.txt')
     if os.path.exists(corpus):
@@ -917,6 +945,31 @@ def run(ctx):
         xml_corpus(ctx, runner)
 
 
+def replay(ctx, runner):
+    """./check C05 --replay <file>: re-run the recorded geometry (and its shrunk form) and decide the property on it again"""
+    d = json.load(open(ctx.replay))
+    e = int(d.get('unit_exponent', 0))
+    for key in ('geometry', 'shrunk'):
+        if not d.get(key): continue
+        g = corpus_geom(d[key])
+        if has_nonfinite(g):
+            bad = compare_nonfinite(g, runner.impl([g], [e])[0])
+        else:
+            bad = runner.mismatch(g, e)
+        ctx.count(text(g), True)
+        ctx.log('replay %s: %s' % (key, bad or 'agrees'))
+        if bad and not has_nonfinite(g):
+            m, im = runner.model([g])[0], runner.impl([g], [e])[0]
+            for k in [k for k, _ in bad]:
+                kk = m and im and known_key(k, g, m, im)
+                ent = kk and ctx.known_match(lambda f: f.get('key', {}).get('class') == kk)
+                if ent:
+                    ctx.known_hit(ent); bad = [(k2, t) for k2, t in bad if not known_key(k2, g, m, im)]
+        if bad:
+            ctx.violation('replay_' + key, dict(geometry=text(g), unit_exponent=e, failures=bad,
+                                                replay='echo "%d %s" | %s' % (e, text(g), runner.hexe)), msg='; '.join(t for _, t in bad)[:300])
+
+
 def ims_raw(im):
     return im and dict(isValid=im['V'], reason=im['R'], detail0=im['D'][0], detail1=im['D'][1], isSimple=im['S'], isRing=im['G'])
 
@@ -925,11 +978,14 @@ def corpus_geom(t):
     """inverse of text()"""
     tk = t.split(); pos = [0]
     def nx(): pos[0] += 1; return tk[pos[0] - 1]
+    def num():
+        t_ = nx()
+        return t_ if t_ in ('nan', 'inf', '-inf') else int(t_)
     def seq():
-        n = int(nx()); return [(int(nx()), int(nx())) for _ in range(n)]
+        n = int(nx()); return [(num(), num()) for _ in range(n)]
     def optpt():
         if tk[pos[0]] == 'E': nx(); return None
-        return (int(nx()), int(nx()))
+        return (num(), num())
     def poly():
         k = int(nx()); return [seq() for _ in range(k)]
     def geom():
